@@ -303,8 +303,18 @@ def hdSaved (s1 : RState) (c : Conn) (groupsBefore : List (String × SharedGroup
 
 /-- the logs of the groups whose turn passed to another member because `c` left them
     (`s0`: the state after the optional disconnect notification) -/
-def hdMoved (s0 : RState) (id : Nat) (c : Conn) : List Nat :=
+def hdTurnMoved (s0 : RState) (id : Nat) (c : Conn) : List Nat :=
   turnMovedLogs (datalogClean s0.datalog id).1 s0.shared c.clientId
+
+/-- the logs of the groups that stay and whose cursor the rewind of the saved requests sets back -/
+def hdRewound (s0 : RState) (id : Nat) (c : Conn) : List Nat :=
+  rewoundLogs (removeFromGroups s0.shared c.clientId) (retransmissionMap c.out.inflight [])
+    ((c.tracker.requests ++ (datalogClean s0.datalog id).2).map (atGroupCursor s0.shared))
+
+/-- the logs `handle_disconnection` wakes: those whose turn moved and, for a persistent session,
+    those of the groups set back -/
+def hdMoved (s0 : RState) (id : Nat) (c : Conn) : List Nat :=
+  if !c.clean then hdTurnMoved s0 id c ++ hdRewound s0 id c else hdTurnMoved s0 id c
 
 /-- the state `handle_disconnection` has built (connection removed, session saved in the
     graveyard) when it wakes the parked members of the groups whose turn moved -/
@@ -325,7 +335,7 @@ theorem handleDisconnection_eq (s : RState) (id : Nat) (reason : Option String) 
       match getConn s id with
       | none => .ok s
       | some c => wakeParked (hdFinal s id c reason) (hdMoved (hdNotify s c reason) id c) := by
-  unfold handleDisconnection hdFinal
+  unfold handleDisconnection hdFinal hdMoved
   cases getConn s id with
   | none => rfl
   | some c =>
